@@ -72,7 +72,7 @@ def tlc_cases(cfg, module='MC_LoadRef', timeout=7200, extra_files=(),
         for c in r.cases:
             if not isinstance(c['doc']['h'], list):
                 c['doc']['h'] = []
-            if not isinstance(c['log'], list):
+            if 'log' in c and not isinstance(c['log'], list):
                 c['log'] = []
             for n in c['doc']['h']:
                 if not isinstance(n['c'], list):
